@@ -11,6 +11,7 @@
 //   uvec r <k> <t..> <dimunit|-> <mode> <m> <s1 e1 u1 ..>               the same on a RangeDimension
 //   upos s <dt> <off|-> <dimunit|-> <p> <unit> <rule> | upos r <k> <t..> <dimunit|-> <p> <unit> <rule>   the scalar overload with a unit
 //   stale <k> <t..> <k2> <t2..> <p> <rule>     a handle that has already converted positions must follow a tick change made through another handle
+//   saxis <dt> <off|-> <count> <start> | raxis <k> <t..> <count> <start> | tickat <k> <t..> <i>    axis()/tickAt()
 // rules: L LE GE G EQ
 #include "common.hpp"
 #include <nix/util/dataAccess.hpp>
@@ -114,6 +115,24 @@ static std::string handle(const std::vector<std::string> &t) {
         auto r = sd.indexOf(s, e, rmode(t[3]));
         std::string out = std::to_string(r.size());
         for (auto &x : r) out += " [" + showp(x) + "]";
+        return out;
+    }
+    if (c == "saxis") {        // saxis <dt> <off|-> <count> <start>
+        set_sampled(t[1], t[2]);
+        auto ax = sd.axis(dec_u64(t[3]), dec_u64(t[4]));
+        std::string out = std::to_string(ax.size());
+        for (double x : ax) out += " " + enc_dbl(x);
+        return out;
+    }
+    if (c == "raxis" || c == "tickat") {   // raxis <k> <t..> <count> <start> | tickat <k> <t..> <i>
+        size_t k = static_cast<size_t>(dec_int(t[1]));
+        std::vector<double> ticks;
+        for (size_t i = 0; i < k; i++) ticks.push_back(dec_dbl(t[2 + i]));
+        set_ticks(ticks);
+        if (c == "tickat") return enc_dbl(rd.tickAt(dec_u64(t[2 + k])));
+        auto ax = rd.axis(dec_u64(t[2 + k]), dec_u64(t[3 + k]));
+        std::string out = std::to_string(ax.size());
+        for (double x : ax) out += " " + enc_dbl(x);
         return out;
     }
     if (c == "uvec" || c == "upos") {
